@@ -65,6 +65,9 @@ func (d *caseDrawer) draw(r *rng.R, o drawOpts) *PCase {
 			specgen.AddErrors(r, g)
 			origin += "+error"
 		}
+		if r.Chance(1, 3) {
+			specgen.RenameSymbols(r, g)
+		}
 		d.mu.Lock()
 		d.drawn++
 		d.mu.Unlock()
@@ -99,6 +102,10 @@ func (d *caseDrawer) draw(r *rng.R, o drawOpts) *PCase {
 			}
 		}
 		pc.Opt = gram.HarnessOpt{Bounds: r.Intn(100) < o.bounds, NamedLists: r.Chance(1, 3)}
+		if r.Chance(1, 4) {
+			// the same specification spread over several files
+			pc.Split = 1 + uint64(r.Intn(1<<30))
+		}
 		pc.prepare()
 		key := sha256.Sum256([]byte(pc.Lox))
 		d.mu.Lock()
